@@ -37,6 +37,30 @@ function stateful(int k) -> int {
     echo(bi.count()); echo(bs.count()); echo(b2.get()); echo(lb.label); echo(lb.count()); echo(Tally.bump());
     return arr[0] + arr[1] + arr[2];
 }
+class Probe {
+    @tracked public qubit q;
+    public int tag;
+    public constructor(int t) -> Probe { this.tag = t; x(this.q); return this; }
+    public function read() -> bit { return measure this.q; }
+    public destructor() -> void { echo("probe released " + this.tag); }
+}
+class RingNode {
+    public RingNode peer;
+    public Probe probe;
+    public constructor() -> RingNode { this.peer = null; this.probe = null; return this; }
+}
+function ring(int k) -> bit {
+    RingNode first = new RingNode();
+    RingNode cur = first;
+    for (int i = 0; i < k; i = i + 1) {
+        RingNode nx = new RingNode();
+        cur.peer = nx;
+        cur = nx;
+    }
+    cur.peer = first;
+    cur.probe = new Probe(k);
+    return cur.probe.read();
+}
 """
 
 
@@ -44,6 +68,10 @@ function stateful(int k) -> int {
 def shot_case(draw):
     kind = draw(st.sampled_from(["quantum", "quantum", "classes", "classic"]))
     calls = "".join(f"    echo(stateful({draw(st.integers(0, 9))}));\n" for _ in range(draw(st.integers(1, 3))))
+    # garbage reference cycles that own (through a non-cyclic member) a destructor and a tracked qubit: they are only
+    # finalised by a cycle collection - during the shot under allocation pressure, or at its end
+    rings = draw(st.lists(st.integers(0, 20), max_size=2))
+    calls += "".join(f"    echo(ring({k}));\n" for k in rings)
     if kind == "quantum":
         p = draw(qprog.qprogram(max_q=6, nstmts=12, tracked=True))
         src = qprog.render(p)
@@ -55,7 +83,7 @@ def shot_case(draw):
     k = src.rfind("function main() -> void {")
     src = STATEFUL + src[:k] + "function main() -> void {\n" + calls + src[k + len("function main() -> void {") + 1:]
     return {"kind": kind, "src": src, "n": draw(st.integers(2, 5)), "seed": draw(st.integers(0, 2**31 - 1)),
-            "twice": draw(st.booleans())}
+            "twice": draw(st.booleans()), "cli": draw(st.booleans()), "rings": len(rings)}
 
 
 class C18(Check):
@@ -80,7 +108,13 @@ class C18(Check):
 
     def run_case(self, case, sc, stats=None):
         src, n = case["src"], case["n"]
-        multi = self.shots(src, sc, ["--seed", str(case["seed"]), "--shots", str(n)] + (["--analyse-twice"] if case["twice"] else []))
+        # "cli": every evaluator is configured exactly as the shot loop of cli.cpp does (QASM log kept and unmeasured-qubit
+        # warnings enabled for the last shot only); otherwise all shots are configured like a single run, which makes the
+        # QASM of every shot comparable.  Collections are driven by allocation pressure only (no 50 ms timer) in both
+        # arrangements so that the moment a garbage cycle is finalised is a function of the program.
+        cli = bool(case.get("cli"))
+        multi = self.shots(src, sc, ["--gc", "natural", "--seed", str(case["seed"]), "--shots", str(n)] + (["--cli-shots"] if cli else []) +
+                           (["--analyse-twice"] if case["twice"] else []))
         if multi is None:
             if stats is not None:
                 stats.inconclusive += 1
@@ -94,18 +128,21 @@ class C18(Check):
         if len(multi) != n:
             return {"why": f"{len(multi)} shot records for {n} shots", "source": src}
         for k in range(n):
-            one = self.shots(src, sc, ["--seed", str(case["seed"]), "--shots", "1", "--shot0", str(k)])
+            one = self.shots(src, sc, ["--gc", "natural", "--seed", str(case["seed"]), "--shots", "1", "--shot0", str(k)])
             if one is None:
                 return None
             if isinstance(one, dict):
                 return {"why": "interpreter died in a fresh run", "source": src, **one.get("died", {})}
+            if cli and k < n - 1:
+                one[0]["qasm"] = multi[k]["qasm"] = None  # the CLI keeps no QASM log for these shots
             if one[0] != multi[k]:
                 diff = [f for f in one[0] if one[0][f] != multi[k][f]]
                 return {"why": f"shot {k} of the {n}-shot run differs from a fresh run with the same seed in {diff}",
                         "fresh": {f: one[0][f] for f in diff}, "multi": {f: multi[k][f] for f in diff}, "source": src}
         if stats is not None:
             nt = n >= 2
-            stats.record(case, nt, tags=[case["kind"]] + (["analyse_twice"] if case["twice"] else []),
+            stats.record(case, nt, tags=[case["kind"]] + (["analyse_twice"] if case["twice"] else []) + (["cli_shot_config"] if case.get("cli") else [])
+                         + (["garbage_cycle"] if case.get("rings") else []),
                          sample={"main": src[src.rfind("function main"):][:500], "n": n} if case["kind"] == "quantum" else None)
         return None
 
